@@ -54,11 +54,14 @@ let pristine : schema Lazy.t = lazy (
 
 let schema_of_transport (mark : string) (dump : string) : schema =
   let s = Lib_schema.schema_of_string dump in
-  match mark with
-  | "F" -> s
-  | "P" ->
+  if mark = "F" then s
+  else match String.split_on_char '-' mark with
+  | "P" :: removed ->
     let b = Lazy.force pristine in
-    { sch_def = s.sch_def; sch_dirdefs = b.sch_dirdefs @ s.sch_dirdefs; sch_types = b.sch_types @ s.sch_types }
+    let removed = List.map str_of_ascii removed in
+    let keep t = not (List.mem (et_name t) removed) in
+    { sch_def = s.sch_def; sch_dirdefs = b.sch_dirdefs @ s.sch_dirdefs;
+      sch_types = List.filter keep b.sch_types @ s.sch_types }
   | _ -> failwith "transport mark"
 
 let c14_validate (line : string) : string =
